@@ -268,7 +268,7 @@ def exCfg : Config :=
 /-- request 1 stores a value, request 2 deletes the record (the cookie stays valid), request 3 cycles
     the id without looking at the state. -/
 def f7History : List (Req Nat Nat) :=
-  [⟨.jar, false, 100, [.insert 1 7]⟩, ⟨.jar, false, 100, [.delete]⟩, ⟨.jar, false, 100, [.cycle]⟩]
+  [⟨.jar, false, 100, [.insert 1 7], none⟩, ⟨.jar, false, 100, [.delete], none⟩, ⟨.jar, false, 100, [.cycle], none⟩]
 
 /-- The faithful model does **not** satisfy C11 at full strength: on `f7History` the third request
     fails (`change_id` on an unknown id) where the pair of maps goes on. Recorded as finding C11-F7;
@@ -277,27 +277,27 @@ theorem C11_full_statement_false : ¬ C11_full_statement Nat Nat := by
   intro h
   have := h exCfg f7History
   revert this
-  decide
+  decide +kernel
 
 example : (observed (runHistory exCfg f7History Client.init World.init)).map (·.2) =
-    [.set 0 [], .set 0 [], .err (.sync f7)] := by decide
+    [.set 0 [], .set 0 [], .err (.sync f7)] := by decide +kernel
 
 /-- The witness of the repaired `remove_raw` defect: insert; next request remove; next request get. -/
 example : observed (runHistory exCfg
-      [⟨.jar, false, 100, [.insert 1 7]⟩, ⟨.jar, false, 100, [.remove 1]⟩, ⟨.jar, false, 100, [.get 1]⟩]
+      [⟨.jar, false, 100, [.insert 1 7], none⟩, ⟨.jar, false, 100, [.remove 1], none⟩, ⟨.jar, false, 100, [.get 1], none⟩]
       (Client.init : Client Nat Nat) World.init) =
-    [([.val none], .set 0 []), ([.val (some 7)], .set 0 []), ([.val none], .set 0 [])] := by decide
+    [([.val none], .set 0 []), ([.val (some 7)], .set 0 []), ([.val none], .set 0 [])] := by decide +kernel
 
 /-- `carry_over_partial` is not vacuous: a history with client and server state, an explicit sync,
     a cycled id and a replayed old cookie shows no F7. -/
 example : NoF7 (observed (runHistory exCfg
-      [⟨.jar, false, 100, [.insert 1 7, .cInsert 2 8, .sync, .cycle]⟩,
-       ⟨.jar, false, 10, [.get 1, .cGet 2, .cycle, .remove 1]⟩,
-       ⟨.issued 0, false, 10, [.get 1, .cGet 2]⟩]
+      [⟨.jar, false, 100, [.insert 1 7, .cInsert 2 8, .sync, .cycle], none⟩,
+       ⟨.jar, false, 10, [.get 1, .cGet 2, .cycle, .remove 1], none⟩,
+       ⟨.issued 0, false, 10, [.get 1, .cGet 2], none⟩]
       (Client.init : Client Nat Nat) World.init)) := by
   intro o ho
   revert o
-  decide
+  decide +kernel
 
 
 /-! Hypotheses of the per-state theorems are satisfiable on non-trivial instances. -/
